@@ -10,6 +10,9 @@ CLAIMED = {
  "C10": ("exploration", "runtime monitoring: three-way differential oracle (followpos route vs NFA route vs reference automaton), complete language equality per pattern",
          "Each generated pattern is compiled by both real routes; the two observed DFAs and the reference automaton are compared pairwise by product walk. Population is aimed at nullable operands, nullable wholes and repetition ranges.",
          "Trusted base: R2 reference automata. Bounded by the generated pattern population.", "5/C10"),
+ "C09": ("exploration", "runtime monitoring: reference-grammar oracle (complete CFG recogniser of the documented pattern grammar) over observed accept/reject of both real entry points",
+         "All strings to a length bound over a 24-symbol metacharacter-rich alphabet, canonical prints, meaningless-range injections and single-character edits are fed to nfa.Parse and regex ast.Parse; acceptance must imply sentencehood, documented unambiguous forms must be accepted, meaningless ranges must be rejected naming the range, both entry points must agree.",
+         "Trusted base: transcription of the documented pattern grammar (ref_patgram.go, 100 lines) with a memoised all-parses recogniser.", "5/C09"),
 }
 
 PENDING_REASON = "check not built yet in this round (planned, see DESIGN.md section 5)"
